@@ -995,6 +995,15 @@ package vanguard
 //@   requires headers != nil && op != nil && op.request != nil && op.request.URL != nil
 //@   ensures[C02] err == nil ==> !hdrHas(headers, "Content-Type") && !hdrHas(headers, "Accept-Encoding") && !hdrHas(headers, "Connect-Protocol-Version") && !hdrHas(headers, "Connect-Timeout-Ms")
 //@   modifies mapobj(headers), op.queryVars, #LIB0
+// C01 (the part of REST binding a contract can reach; C07 itself is not applicable): every query
+// parameter of the request is visited - the loop over them ends by exhaustion or by returning an
+// error, never by leaving the remaining parameters unread. The reflection calls are unmodelled
+// (implicit obligations of this function are assumed, not claimed).
+//@ func (restClientProtocol).prepareUnmarshalledRequest
+//@   opt implicit=assume
+//@   loop 1 nobreak[C01]
+//@   loop 2 nobreak[C01]
+
 //@ func (restClientProtocol).extractProtocolRequestHeaders
 // C18/C02: a REST request whose body is not a google.api.HttpBody is accepted as JSON only when its
 // media type (the Content-Type up to the first ';', trimmed, lower-cased) is exactly application/json;
